@@ -137,8 +137,22 @@ func frameTaint(p *Program, root *ssa.Function, fns []*ssa.Function) map[ssa.Val
 	// seeds: slices of the array handed to syscall.Recvfrom
 	for _, call := range Calls(root) {
 		if f := call.Common().StaticCallee(); f != nil && FuncIs(f, "syscall", "Recvfrom") {
-			if sl, ok := call.Common().Args[1].(*ssa.Slice); ok {
+			a1 := call.Common().Args[1]
+			t[a1] = true
+			if sl, ok := a1.(*ssa.Slice); ok {
 				t[sl.X] = true
+				a1 = sl.X
+			}
+			// a slice kept in a variable (`buffer = make([]byte, n)` captured by the loop's goroutine): every load of that cell
+			if ld, ok := a1.(*ssa.UnOp); ok && ld.Op == token.MUL {
+				t[ld.X] = true
+				if ld.X.Referrers() != nil {
+					for _, ref := range *ld.X.Referrers() {
+						if l2, isL := ref.(*ssa.UnOp); isL && l2.Op == token.MUL {
+							t[l2] = true
+						}
+					}
+				}
 			}
 		}
 	}
@@ -520,6 +534,7 @@ func c02(c *Ctx) {
 	// the listener stays up but stops processing frames
 	lockReleaseRule(c, "recv-loop-lock-released", append([]*ssa.Function(nil), fns...), 2, "mutex acquisitions in the receive loop's reach", "the receive loop blocks for ever at the next acquisition")
 	c02SendOnClosed(c, fns)
+	c02NoRelock(c, fns)
 	// the knock detector is fed by every probe frame and runs without a recover: the one place where it indexes a list by a
 	// frame-driven count is the port list of a report, which must be sized by the very set it is filled from (shared with C20)
 	if kd := p.Method(canaryRel, "Canary", "knockDetector"); c.Anchor(kd != nil, "knock-list-index-safe", "(*canary.Canary).knockDetector") {
@@ -686,4 +701,103 @@ func c02SendOnClosed(c *Ctx, fns []*ssa.Function) {
 		}
 	}
 	c.Floor(rule, 2, "the socket wake-up and the knock queue")
+}
+
+// c02NoRelock: sync.Mutex is not re-entrant. A function in the receive loop's reach that holds a mutex to its end (Lock
+// with a deferred Unlock) must not call, directly or through other functions of the listener, something that locks the
+// same mutex field again: the single receive-loop goroutine would park on itself and no later frame is processed (the
+// exported Socket.Close locks the state's mutex that handleTCP already holds; the segment handler uses the unexported
+// flush/close pair for that reason).
+func c02NoRelock(c *Ctx, fns []*ssa.Function) {
+	p := c.P
+	const rule = "no-relock-of-held-mutex"
+	muKey := func(v ssa.Value) string {
+		if fa, ok := v.(*ssa.FieldAddr); ok {
+			if n := NamedOf(fa.X.Type()); n != nil {
+				return TypeKey(n) + "." + fieldNameOf(fa)
+			}
+		}
+		return ""
+	}
+	// locks(f): mutex keys f (or its in-repo callees, depth 3) acquires
+	memo := map[*ssa.Function]map[string]string{}
+	var locks func(f *ssa.Function, depth int) map[string]string
+	locks = func(f *ssa.Function, depth int) map[string]string {
+		if m, ok := memo[f]; ok {
+			return m
+		}
+		m := map[string]string{}
+		memo[f] = m
+		if f == nil || f.Blocks == nil || !InRepo(f) || depth > 3 {
+			return m
+		}
+		for _, call := range Calls(f) {
+			if _, isGo := call.(*ssa.Go); isGo {
+				continue
+			}
+			cal := call.Common().StaticCallee()
+			if cal == nil {
+				continue
+			}
+			if PkgOf(cal) == "sync" && (cal.Name() == "Lock" || cal.Name() == "RLock") && len(call.Common().Args) > 0 {
+				if k := muKey(call.Common().Args[0]); k != "" {
+					m[k] = shortFn(f) + " (" + p.InstrPos(call) + ")"
+				}
+				continue
+			}
+			if strings.HasPrefix(RelPkg(PkgOf(cal)), canaryRel) {
+				for k, v := range locks(cal, depth+1) {
+					if _, ok := m[k]; !ok {
+						m[k] = v
+					}
+				}
+			}
+		}
+		return m
+	}
+	n := 0
+	for _, fn := range fns {
+		// mutexes held to the end of fn
+		held := map[string]ssa.Instruction{}
+		for _, call := range Calls(fn) {
+			if _, isDefer := call.(*ssa.Defer); !isDefer {
+				continue
+			}
+			cal := call.Common().StaticCallee()
+			if cal != nil && PkgOf(cal) == "sync" && (cal.Name() == "Unlock" || cal.Name() == "RUnlock") && len(call.Common().Args) > 0 {
+				if k := muKey(call.Common().Args[0]); k != "" {
+					for _, c2 := range Calls(fn) {
+						if _, isD := c2.(*ssa.Defer); isD {
+							continue
+						}
+						f2 := c2.Common().StaticCallee()
+						if f2 != nil && PkgOf(f2) == "sync" && (f2.Name() == "Lock" || f2.Name() == "RLock") && len(c2.Common().Args) > 0 && muKey(c2.Common().Args[0]) == k {
+							held[k] = c2
+						}
+					}
+				}
+			}
+		}
+		for k, acq := range held {
+			n++
+			bad := ""
+			for _, call := range Calls(fn) {
+				if _, isGo := call.(*ssa.Go); isGo {
+					continue
+				}
+				if _, isDefer := call.(*ssa.Defer); isDefer {
+					continue
+				}
+				cal := call.Common().StaticCallee()
+				if cal == nil || !InRepo(cal) || !before(acq, call) {
+					continue
+				}
+				if where, ok := locks(cal, 0)[k]; ok {
+					bad = "it calls " + FuncShort(cal) + " at " + p.InstrPos(call) + ", which locks " + k + " again in " + where
+				}
+			}
+			c.Check(bad == "", rule, shortFn(fn)+" holds "+k, p.InstrPos(acq), "nothing called while the mutex is held locks it again", "this function holds "+k+" until it returns, and "+bad+": sync.Mutex is not re-entrant, the receive-loop goroutine blocks on itself and no further frame is processed")
+		}
+	}
+	c.Floor(rule, 1, "handleTCP holds the state's mutex")
 }
